@@ -38,4 +38,7 @@ extern int g_sched_calls, g_copy_calls;
 
 extern int g_reporter_called;      /* a fail* reporter was entered (they never return) */
 
+extern int g_iter_stop;            /* harness flag: end the run where the next loop iteration would begin */
+void verif_iteration_end(int which);
+
 #endif
